@@ -33,6 +33,9 @@ def run(ctx):
     r164(ctx, ut)
     r165(ctx, ut)
     r166(ctx, ut)
+    # SI signatures meet in `==` / `!=` (as_quantity, + - and the comparisons of SI): they must be one kind of container everywhere
+    from ..statrules import compared_container_fields
+    compared_container_fields(ctx, 'R16.7', 'units')
 
 
 def fmt(sig):
